@@ -29,6 +29,8 @@ type Layout struct {
 	Cycle      string   `json:"cycle,omitempty"`      // "", "extends", "include", "alias", "depends_on"
 	Features   []string `json:"features,omitempty"`
 	Remote     map[string]string `json:"remote,omitempty"` // sim://name -> local path (stub ResourceLoader)
+	CliEnvFiles []string `json:"cli_env_files,omitempty"` // explicit --env-file arguments (cli entry)
+	Stdin      string   `json:"stdin,omitempty"`         // content served on standard input (compose file "-")
 }
 
 type LoadOpts struct {
